@@ -1,5 +1,6 @@
 (* C03 — Running an image follows the machine model from load to stop. *)
 From Lace Require Import Word Machine Isa Vm RunProofs.
+From Lace Require Examples.
 From Lace Require VmInput.
 
 (** lace's loader is the SPEC's: same accept/reject decision, same initial machine. *)
@@ -61,3 +62,10 @@ Theorem C03_input_front : forall feat instr st st', execute feat instr st = Runn
   s_inp st' = s_inp st \/ s_inp st' = tl (s_inp st).
 Proof. exact VmInput.execute_input. Qed.
 Print Assumptions C03_input_front.
+
+(** Non-vacuity: a concrete loaded image (three `add r0 r0 #1`, HALT, at x3000) is well-formed (the
+    hypothesis of C03_run / C03_load_wf) and runs to the normal end with R0 = 3, PC = xFFFF. *)
+Example C03_nonvacuous :
+  from_raw Examples.ex_raw nil = Loaded Examples.ex_state /\ wf Examples.ex_state /\
+  match fst (vm_run false 10 Examples.ex_state nil) with VFinished s => R s 0 = 3 /\ s_pc s = 65535 | _ => False end.
+Proof. split; [exact Examples.ex_loaded|]. split; [exact Examples.ex_wf|exact Examples.ex_runs]. Qed.
